@@ -151,6 +151,8 @@ package decorator
 //@ foreach invariant comments_prefix: len(r.comments) >= entry(len(r.comments)) && (forall j int :: 0 <= j && j < entry(len(r.comments)) ==> r.comments[j] == entry(r.comments[j]))
 //@ foreach invariant ast_map_grows: forall k dst.Node :: {has(r.Ast.Nodes, k)} entry(has(r.Ast.Nodes, k)) ==> has(r.Ast.Nodes, k) && r.Ast.Nodes[k] == entry(r.Ast.Nodes[k])
 //@ foreach invariant dst_map_grows: forall k ast.Node :: {has(r.Dst.Nodes, k)} entry(has(r.Dst.Nodes, k)) ==> has(r.Dst.Nodes, k) && r.Dst.Nodes[k] == entry(r.Dst.Nodes[k])
+//@ case FuncDecl
+//@ assumes signature_not_shared: !has(r.Ast.Nodes, cast(n, type(*dst.FuncDecl)).Type)
 //@ case BadDecl
 //@ assumes length_nonnegative: forall b *dst.BadDecl :: b.Length >= 0
 //@ case BadExpr
